@@ -428,6 +428,10 @@ def run_check(pid, tier, verif_seed):
 
     replays = []
     exit_code = 0
+    if os.environ.get("VERIF_SURVEY"):
+        for sig, lst in sorted(new_by_sig.items()):
+            print("SURVEY %4d  %s   e.g. idx %s: %s" % (len(lst), sig, [x["idx"] for x, _ in lst[:6]], lst[0][1]["v"].get("msg", "")[:300]))
+        return 1 if new_by_sig else 0
     for sig, lst in sorted(new_by_sig.items())[: bud.get("max_report", 3)]:
         # smallest scenario / shortest log first
         lst.sort(key=lambda xv: (len(json.dumps(xv[1]["sc"], default=_jsonable)), len(xv[1]["decisions"])))
